@@ -245,7 +245,7 @@ func mkConfig(c *vlib.Ctx, cname string, files []string, tags []string, depth in
 					for n, hsh := range got {
 						tag := "?"
 						for t, src := range contents {
-							if rtx.Hash(src) == hsh {
+							if rtx.Fingerprint(src) == hsh {
 								tag = t
 							}
 						}
